@@ -2,7 +2,7 @@
  * path, whatever was written to the path before.
  *
  * Alphabet: 6 models fitted once in main() (PCA small/large, PLS ny=1 / ny=2,nlv=2 with the optional
- * validation fields filled, CPCA 2 / 3 blocks; data columns scaled 1e-9 .. 1e9) x 2 paths on /dev/shm.
+ * validation fields filled, CPCA 2 / 3 blocks; data columns scaled 1e-9 .. 1e9 and -2e10) x 2 paths on /dev/shm.
  * Enumerated: ALL write sequences of length 1..3 (quick) / 1..4 (thorough) over the 12 operations, thorough
  * also all sequences of length 5 over 3 models (one per kind) x 2 paths; every Write is followed by a Read of
  * the kind just written into a fresh model and judged.
@@ -267,10 +267,11 @@ static void build_models(void) {
   { static const double cs[2] = {1e9, 3e8};
     matrix *x = gen(1, 4, 2, cs, 0.7); PCAMODEL *m; NewPCAModel(&m); PCA(x, -1, 1, m, NULL);
     M[0] = (mdl){ .kind = K_PCA, .name = "PCA-small(4x2,npc1,raw,1e9)", .model = m, .probe = gen(11, 3, 2, cs, 0.7) }; DelMatrix(&x); }
-  /* 1: PCA large, autoscaled, 7x4, 3 pc, column scales 1e-9, 1, 1e3, 1e9 */
-  { static const double cs[4] = {1e-9, 1.0, 1e3, 1e9};
+  /* 1: PCA large, autoscaled, 7x4, 3 pc, column scales 1e-9, 1, 1e3, -2e10 (stored average about -6e9: a negative number with
+   *    ten integer digits, wider than the missing-value code) */
+  { static const double cs[4] = {1e-9, 1.0, 1e3, -2e10};
     matrix *x = gen(2, 7, 4, cs, 0.3); PCAMODEL *m; NewPCAModel(&m); PCA(x, 1, 3, m, NULL);
-    M[1] = (mdl){ .kind = K_PCA, .name = "PCA-large(7x4,npc3,autoscaled,1e-9..1e9)", .model = m, .probe = gen(12, 3, 4, cs, 0.3) }; DelMatrix(&x); }
+    M[1] = (mdl){ .kind = K_PCA, .name = "PCA-large(7x4,npc3,autoscaled,1e-9..-2e10)", .model = m, .probe = gen(12, 3, 4, cs, 0.3) }; DelMatrix(&x); }
   /* 2: PLS small, ny=1, nlv=1, x centred only, y of size 1e-9; every optional (validation) field stays empty */
   { static const double cs[3] = {1.0, 1e3, 1e-3}, ys[1] = {1e-9};
     matrix *x = gen(3, 6, 3, cs, 0.2), *y = gen(4, 6, 1, ys, 0.1); PLSMODEL *m; NewPLSModel(&m); PLS(x, y, 1, 0, 0, m, NULL);
